@@ -562,6 +562,15 @@ def h_r1(p: Project, rep: Report):
             nv = getattr(nxt, "value", None) if isinstance(nxt, (ast.Assign, ast.AnnAssign)) else None
             good = good and nv is not None and (_is_chunk(text(nv), src) or text(nv) in (f"{src}.readline()", f"{src}.read()"))
         rep.check("H-R1", "parse_header:header_start-just-before-first-read", good, "" if good else "the start position is not the stream position immediately before the first header line is read (or that line is altered as it is read)", hloc(p, fn0))
+    # once the source is positioned at the body, the next thing read from it is the body, whole: nothing reads (peeks for a
+    # log line, sniffs a byte-order mark) in between without putting the position back
+    for n_, c_ in seeks:
+        later = sorted((x for x in ast.walk(fn) if isinstance(x, ast.Call) and isinstance(x.func, ast.Attribute) and text(x.func.value) == src and x.func.attr in ("read", "readline", "readlines", "readinto", "read1", "peek") and x.lineno >= c_.lineno and x is not c_), key=lambda x: (x.lineno, x.col_offset))
+        if not later:
+            continue
+        first_ = later[0]
+        whole = first_.func.attr == "read" and not first_.args and not first_.keywords
+        rep.check("H-R1", "parse_header:body-read-first-after-the-seek", whole, f"after the source is positioned at the body, `{text(first_)[:40]}` (line {first_.lineno}) consumes part of it before the body is read: the body handed over starts that many bytes late (a peek for a debug line under isEnabledFor(DEBUG) does this only when that logger is on)" if not whole else "", hloc(p, first_))
     # what is read ahead may run on into the body (fields separated by a bare CR or by nothing put the whole file on
     # the first "line"; a header without blank line is followed by body text within the fixed number of lines): it
     # is decoded before the header's CHARSET is known, so the decoder must accept every byte
@@ -964,3 +973,43 @@ def b_r14_header_text_built_on_every_call(p: Project, rep: Report):
         rep.check("B-R14", f"{clsname}.__str__:built-on-every-call", kept is None, f"a path returns {kept[:50] if kept else ''}: the text of an earlier call - a field assigned since then is not in it" if kept else "", hloc(p, fn0))
     if n == 0:
         rep.note("B-R14 undecided: no __str__ found on the header classes")
+
+
+def b_r15_only_header_errors_out_of_parse(p: Project, rep: Report):
+    """a header text that is refused is refused with OFXHeaderError"""
+    rep.rule("B-R15", "OFXHeaderBase.parse() looks into its match only through groupdict() / end() / group(0) / span(): a lookup by group NAME (start(name), group(name), span(name), match[name]) is made with a constant that is a group of BOTH header patterns, never with a variable - the field names parse() works with are lower-cased, the version-1 pattern's groups are upper case, and re raises IndexError (`no such group`) for a name that is not one: a version-1 header with an out-of-domain field would then fail with IndexError instead of OFXHeaderError")
+    cd = p.module(HEADER).classdef("OFXHeaderBase")
+    if cd is None:
+        raise AnalysisError("OFXHeaderBase not found")
+    ci = p.classinfo(HEADER, cd)
+    fn = ci.own_func("parse")
+    if fn is None:
+        raise AnalysisError("OFXHeaderBase.parse not found")
+    # names bound to a match object
+    matches = {st.targets[0].id for st in ast.walk(fn) if isinstance(st, ast.Assign) and len(st.targets) == 1 and isinstance(st.targets[0], ast.Name) and isinstance(st.value, ast.Call) and isinstance(st.value.func, ast.Attribute) and st.value.func.attr in ("search", "match", "fullmatch")}
+    groups = []
+    for cname in ("OFXHeaderV1", "OFXHeaderV2"):
+        try:
+            groups.append(set(rx.class_regex(p, HEADER, cname).groups))
+        except Exception:
+            groups.append(None)
+    n = 0
+    for x in ast.walk(fn):
+        arg = None
+        if isinstance(x, ast.Call) and isinstance(x.func, ast.Attribute) and isinstance(x.func.value, ast.Name) and x.func.value.id in matches and x.func.attr in ("start", "end", "span", "group") and x.args:
+            arg = x.args[0]
+        elif isinstance(x, ast.Subscript) and isinstance(x.value, ast.Name) and x.value.id in matches:
+            arg = x.slice
+        if arg is None:
+            continue
+        n += 1
+        if isinstance(arg, ast.Constant) and isinstance(arg.value, int):
+            ok, why = True, ""
+        elif isinstance(arg, ast.Constant) and isinstance(arg.value, str):
+            ok = all(g is not None and arg.value in g for g in groups)
+            why = f"'{arg.value}' is not a group of both header patterns"
+        else:
+            ok, why = False, f"the group is named by `{text(arg)[:30]}`, a run-time value: for the version-1 pattern (upper-case groups) a lower-cased field name raises IndexError"
+        rep.check("B-R15", f"parse:match-lookup:{text(x)[:40]}", ok, f"{text(x)[:50]}: {why} - a header text that should be refused with OFXHeaderError fails with IndexError instead" if not ok else "", hloc(p, x))
+    rep.unit("match_lookups_by_group", n)
+    rep.check("B-R15", "parse:match-read-through-groupdict", True, "", f"{n} lookups by group in OFXHeaderBase.parse")
